@@ -17,7 +17,7 @@ def asgi_events(res, zerocopy_allowed=False):
                     if not (isinstance(k, bytes) and isinstance(v, bytes) and k == k.lower()):
                         ok = False
                         why.append("header %r: names must be lower-case bytes, values bytes" % (k,))
-                    elif any(c in k + v for c in (b"\r", b"\n", b"\0")):
+                    elif any((c < 32 and c != 9) or c == 127 for c in k + v):
                         ok = False
                         why.append("control character in header %r" % (k,))
             except (TypeError, ValueError):
@@ -62,7 +62,7 @@ def wsgi_events(res):
                     except UnicodeEncodeError:
                         good = False
                         why.append("header %r is not Latin-1" % (h,))
-                    if any(c in h[0] + h[1] for c in "\r\n\0"):
+                    if any((ord(c) < 32 and c != "\t") or ord(c) == 127 for c in h[0] + h[1]):
                         good = False
                         why.append("control character in header %r" % (h,))
                     if h[0].lower() in HOP:
